@@ -316,7 +316,7 @@ theorem decObj_numCond (nc : NumericCondition) :
 
 theorem roundtrip_preCond_aux (c : PreCond) : decPreCond (encPreCond c) = c := by
   obtain ⟨ct, pc, fn, mc⟩ := c
-  simp only [decPreCond, encPreCond, PreCond.mk.injEq]
+  simp only [decPreCond, encPreCond, PrefilterCondition.mk.injEq]
   by_cases h1 : fn = "" <;> cases pc <;> cases mc <;>
     simp [getStr, JV.get, omitStr, List.lookup, h1] <;>
     first
